@@ -249,8 +249,72 @@ def decision_table():
     return rows, dirs
 
 
+def router_masks(dirs):
+    """which (input, output) pairs floo_router.sv forwards: the conditions of the generate branches gen_inout_identical
+    (loop-back) and gen_xy_opt (Y-to-X turn) are read with the same fail-closed expression reader and evaluated for
+    inputs / outputs 0..4, once for XY routing with the optimisation and once for table routing"""
+    root = common.REPO
+    txt = re.sub(r"//[^\n]*", "", open(os.path.join(root, "hw", "floo_router.sv")).read())
+    pkg = open(os.path.join(root, "hw", "floo_pkg.sv")).read()
+    algos = enum_members(pkg, "route_algo_e")
+    mi = re.search(r"for\s*\(\s*genvar\s+(\w+)\s*=\s*0\s*;\s*\1\s*<\s*NumInput\s*;[^)]*\)\s*begin\s*:\s*gen_hs_input", txt)
+    mo = re.search(r"for\s*\(\s*genvar\s+(\w+)\s*=\s*0\s*;\s*\1\s*<\s*NumOutput\s*;[^)]*\)\s*begin\s*:\s*gen_hs_output", txt)
+    if not mi or not mo:
+        raise RtlError("the input / output generate loops of floo_router.sv were not found")
+    vin, vout = mi.group(1), mo.group(1)
+    body = txt[mo.end():]
+    m1 = re.search(r"\bif\s*\((.*?)\)\s*begin\s*:\s*gen_inout_identical", body, re.S)
+    m2 = re.search(r"end\s+else\s+if\s*\((.*?)\)\s*begin\s*:\s*gen_xy_opt", body, re.S)
+    m3 = re.search(r"end\s+else\s+begin\s*:\s*gen_default", body)
+    if not (m1 and m2 and m3 and m1.start() < m2.start() < m3.start()):
+        raise RtlError("the branches gen_inout_identical / gen_xy_opt / gen_default of floo_router.sv were not found in this order")
+
+    def cond(text):
+        p = Parser(tokens(text))
+        e = p.expr()
+        if p.peek() is not None:
+            raise RtlError(f"unexpected text in a generate condition of floo_router.sv: {p.peek()!r}")
+        return e
+    c1, c2 = cond(m1.group(1)), cond(m2.group(1))
+
+    def ev(e, env):
+        k = e[0]
+        if k == "num":
+            return e[1]
+        if k == "var":
+            if e[1] in env:
+                return env[e[1]]
+            if e[1] in dirs:
+                return dirs[e[1]]
+            if e[1] in algos:
+                return algos[e[1]]
+            raise RtlError(f"name {e[1]!r} is outside the fragment of the router's generate conditions")
+        if k == "not":
+            return int(not ev(e[1], env))
+        if k == "and":
+            return int(bool(ev(e[1], env)) and bool(ev(e[2], env)))
+        if k == "or":
+            return int(bool(ev(e[1], env)) or bool(ev(e[2], env)))
+        if k == "+":
+            return ev(e[1], env) + ev(e[2], env)
+        a, b = ev(e[1], env), ev(e[2], env)
+        return int({"==": a == b, "!=": a != b, "<": a < b, "<=": a <= b, ">": a > b, ">=": a >= b}[k])
+    out = {}
+    for key, algo in (("xy", "XYRouting"), ("id", "IdTable")):
+        if algo not in algos:
+            raise RtlError(f"route_algo_e has no member {algo}")
+        rows = []
+        for i in range(5):
+            for o in range(5):
+                env = {vin: i, vout: o, "NoLoopback": 1, "XYRouteOpt": 1, "RouteAlgo": algos[algo]}
+                rows.append((i, o, not (ev(c1, env) or ev(c2, env))))
+        out[key] = rows
+    return out
+
+
 def generate_facts():
     rows, dirs = decision_table()
+    masks = router_masks(dirs)
     L = ["(* generated by harness/facts_routesel.py from /repo/hw/floo_route_select.sv and hw/floo_pkg.sv: do not edit *)",
          "From FV Require Import Base.", "",
          "(* the XY decision of floo_route_select, executed from its text: ((dst x, dst y), (router x, router y), port id, route_sel_id) *)",
@@ -259,6 +323,10 @@ def generate_facts():
     L.append("].")
     L += ["", "(* floo_pkg::route_direction_e *)",
           "Definition rtl_route_directions : list (string * Z) := [" + "; ".join(f'("{k}", {v})' for k, v in dirs.items()) + "]."]
+    for key in ("xy", "id"):
+        L += ["", f"(* floo_router.sv: (input, output) -> forwarded, for {'XY routing with XYRouteOpt' if key == 'xy' else 'table routing'}, NoLoopback set *)",
+              f"Definition rtl_router_forward_{key} : list ((Z * Z) * bool) := [" +
+              "; ".join(f"(({i}, {o}), {'true' if f else 'false'})" for i, o, f in masks[key]) + "]."]
     return "RouteSelFacts.v", "\n".join(L) + "\n"
 
 
